@@ -5607,7 +5607,11 @@ GRwritechunk(int32       riid,   /* IN: access aid to GR */
                         HGOTO_ERROR(DFE_NOSPACE, FAIL);
 
                     if (switch_interlace == TRUE) {
-                        void *pixel_buf; /* buffer for the pixel interlaced data */
+                        void *pixel_buf;   /* buffer for the pixel interlaced data */
+                        int32 chunk_xy[2]; /* a chunk is cdims[0] lines of cdims[1] pixels */
+
+                        chunk_xy[XDIM] = info_block.cdims[1];
+                        chunk_xy[YDIM] = info_block.cdims[0];
 
                         /* Allocate space for the conversion buffer */
                         if ((pixel_buf = malloc((size_t)(pixel_mem_size * csize))) == NULL)
@@ -5619,7 +5623,7 @@ GRwritechunk(int32       riid,   /* IN: access aid to GR */
                          * even though the data will not be modified
                          */
                         if (FAIL == GRIil_convert((void *)datap, ri_ptr->img_dim.il, pixel_buf,
-                                                  MFGR_INTERLACE_PIXEL, info_block.cdims,
+                                                  MFGR_INTERLACE_PIXEL, chunk_xy,
                                                   ri_ptr->img_dim.ncomps, ri_ptr->img_dim.nt))
                             HGOTO_ERROR(DFE_INTERNAL, FAIL);
                         H4_GCC_CLANG_DIAG_ON("cast-qual")
@@ -5831,14 +5835,18 @@ GRreadchunk(int32  riid,   /* IN: access aid to GR */
                 /*        in a bit of a hurry right now - QAK */
                 /* I took this code from GRwrite() and put it here - GV */
                 if (ri_ptr->im_il != MFGR_INTERLACE_PIXEL) {
-                    void *pixel_buf; /* buffer for the pixel interlaced data */
+                    void *pixel_buf;   /* buffer for the pixel interlaced data */
+                    int32 chunk_xy[2]; /* a chunk is cdims[0] lines of cdims[1] pixels */
+
+                    chunk_xy[XDIM] = info_block.cdims[1];
+                    chunk_xy[YDIM] = info_block.cdims[0];
 
                     /* Allocate space for the conversion buffer */
                     if ((pixel_buf = malloc(pixel_mem_size * csize)) == NULL)
                         HGOTO_ERROR(DFE_NOSPACE, FAIL);
 
                     if (FAIL == GRIil_convert(datap, MFGR_INTERLACE_PIXEL, pixel_buf, ri_ptr->im_il,
-                                              info_block.cdims, ri_ptr->img_dim.ncomps, ri_ptr->img_dim.nt))
+                                              chunk_xy, ri_ptr->img_dim.ncomps, ri_ptr->img_dim.nt))
                         HGOTO_ERROR(DFE_INTERNAL, FAIL);
 
                     memcpy(datap, pixel_buf, pixel_mem_size * csize);
